@@ -889,3 +889,39 @@ func VerifC01Core() {
 	verifAssert(verifEqStr(got, c01DumpList(want)), "C01/result-differs-from-reference "+label)
 	verifCover("C01/end")
 }
+
+// VerifC01ContainsMap: `contains` on maps — a map contains {K: V} exactly when it has the key K and the value there
+// contains V (for strings: V is a substring). Keys and values range over the same small alphabet, so a value may
+// spell a key (the lookup must search the keys only).
+func VerifC01ContainsMap() {
+	k1, k2 := verifStrN("k1", 1, "ab"), verifStrN("k2", 1, "ab")
+	verifAssume(!verifEqStr(k1, k2))
+	v1, v2 := verifStrN("v1", 1, "ac"), verifStrN("v2", 1, "ac")
+	qk, qv := verifStrN("qk", 1, "ac"), verifStrN("qv", 1, "ac")
+	doc := vDoc(vMap(vStr(k1), vStr(v1), vStr(k2), vStr(v2)))
+	e := vParse("contains({\"QK\": \"QV\"})")
+	vSubst(e, "QK", "", qk)
+	vSubst(e, "QV", "", qv)
+	res, err := vEval(e, doc)
+	verifAssert(err == nil && res.Len() == 1, "C01/contains-map-error")
+	if err != nil || res.Len() != 1 {
+		return
+	}
+	want := verifOr(verifAnd(verifEqStr(qk, k1), verifEqStr(qv, v1)), verifAnd(verifEqStr(qk, k2), verifEqStr(qv, v2)))
+	got := res.Front().Value.(*CandidateNode).Value == "true"
+	verifAssert(got == want, "C01/contains-on-a-map-differs-from-its-definition")
+	// equality of maps inside sequence subtraction uses the same lookup: [m] - [m'] is empty exactly when m == m'
+	if verifEqStr(qk, k2) {
+		verifCover("C01/contains-map/end")
+		return // {k2: .., k2: ..} is no map
+	}
+	other := vMap(vStr(qk), vStr(qv), vStr(k2), vStr(v2))
+	sub, err := vEval(vParse(".[0:1] - .[1:2] | length"), vDoc(vSeq(vMap(vStr(k1), vStr(v1), vStr(k2), vStr(v2)), other)))
+	verifAssert(err == nil && sub.Len() == 1, "C01/subtract-maps-error")
+	if err == nil && sub.Len() == 1 {
+		same := verifAnd(verifEqStr(qk, k1), verifEqStr(qv, v1))
+		verifAssert((sub.Front().Value.(*CandidateNode).Value == "0") == same, "C01/equality-of-maps-differs-from-its-definition")
+	}
+	verifCover("C01/contains-map/end")
+}
+
